@@ -135,8 +135,7 @@ class Recoverable(VC):
 def vcs(tier):
     out = [Step(v) for v in ("Propose", "Vote", "Execute", "Close")] + [Recoverable()]
     # two-call chains on one proposal (thorough): the second call is judged on the state the first really left behind
-    import os
-    if tier == "thorough" and os.environ.get("VERIF_CHAINS"):
+    if tier == "thorough":
         CHV = ("Vote", "Execute", "Close")
         out += [Step(b, after=a) for a in CHV for b in CHV]
     return out
